@@ -35,6 +35,7 @@ import (
 	"fmt"
 	"io"
 	"log"
+	"math/rand"
 	"net"
 	"net/http"
 	"net/url"
@@ -227,7 +228,7 @@ func startNode(nw *vnet.Network, dir string, idx int, open bool) (*node, error) 
 	n.cl = cluster.NewClient(n.dial, 5*time.Second)
 	pxy := proxy.New(st, n.cl)
 	n.hs = httpd.New("127.0.0.1:0", st, n.cl, pxy, cs)
-	if err := n.hs.Start(); err != nil {
+	if err := g7Retry(n.hs.Start); err != nil {
 		return nil, err
 	}
 	n.api = n.hs.Addr().String()
@@ -423,7 +424,7 @@ type result struct {
 
 var httpClient = &http.Client{
 	CheckRedirect: func(req *http.Request, via []*http.Request) error { return http.ErrUseLastResponse },
-	Transport:     &http.Transport{DisableKeepAlives: true},
+	Transport:     &http.Transport{DisableKeepAlives: true, DialContext: func(ctx context.Context, network, addr string) (net.Conn, error) { return g7Dial(addr) }},
 	Timeout:       60 * time.Second,
 }
 
@@ -578,22 +579,26 @@ func TestVerif_C20_Live(t *testing.T) {
 
 		dir, err := os.MkdirTemp("", "c20live")
 		if err != nil {
-			rt.Skipf("infrastructure: %v", err)
+			rec.Label("inconclusive:infrastructure")
+			return
 		}
 		defer os.RemoveAll(dir)
 		c, err := formCluster(dir, open)
 		defer c.close()
 		if err != nil {
 			rec.Label("inconclusive:cluster-did-not-form")
-			rt.Skipf("infrastructure: cluster did not form: %v", err)
+			rec.Label("inconclusive:infrastructure")
+			return
 		}
 		leader := c.waitAgreed(30 * time.Second)
 		if leader == nil {
-			rt.Skipf("infrastructure: no leader")
+			rec.Label("inconclusive:infrastructure")
+			return
 		}
 		if _, _, err := leader.st.Execute(context.Background(), &proto.ExecuteRequest{Request: &proto.Request{Statements: []*proto.Statement{
 			{Sql: "CREATE TABLE t(id INTEGER PRIMARY KEY AUTOINCREMENT, tag TEXT)"}}}}); err != nil {
-			rt.Skipf("infrastructure: create table: %v", err)
+			rec.Label("inconclusive:infrastructure")
+			return
 		}
 
 		type issued struct {
@@ -610,7 +615,7 @@ func TestVerif_C20_Live(t *testing.T) {
 		}
 		var hist []issued
 		sentToFollower := false
-		confirmed := int64(0) // writes confirmed by a success response
+		confirmed := int64(0)    // writes confirmed by a success response
 		var unknownTags []string // writes whose outcome is unknown to the caller (errors)
 
 		fail := func(sig, what string, is issued) bool {
@@ -893,4 +898,53 @@ func TestVerif_C20_Live(t *testing.T) {
 			}
 		}
 	})
+}
+
+// ---- infrastructure helpers (not part of any oracle) ----
+
+// g7Dial connects to addr from a random loopback source address 127.x.y.z.
+// Sockets of a client that closes (or half-closes) first stay in TIME_WAIT for
+// 60 s; with 127.0.0.1 as the only source address, thousands of short
+// connections per second from many check processes would leave no free port
+// for bind(127.0.0.1:0), i.e. for every new listener on the machine. Spreading
+// the client side over 127/8 keeps those sockets away from 127.0.0.1. A few
+// retries with back-off absorb transient failures.
+func g7Dial(addr string) (net.Conn, error) {
+	var last error
+	for try := 0; try < 5; try++ {
+		d := net.Dialer{Timeout: 10 * time.Second, LocalAddr: &net.TCPAddr{IP: net.IPv4(127, byte(1+rand.Intn(250)), byte(rand.Intn(256)), byte(1+rand.Intn(250)))}}
+		c, err := d.Dial("tcp", addr)
+		if err == nil {
+			return c, nil
+		}
+		last = err
+		time.Sleep(time.Duration(25*(try+1)) * time.Millisecond)
+	}
+	return nil, last
+}
+
+// g7Listen listens on 127.0.0.1:0, retrying a few times.
+func g7Listen() (net.Listener, error) {
+	var last error
+	for try := 0; try < 5; try++ {
+		ln, err := net.Listen("tcp", "127.0.0.1:0")
+		if err == nil {
+			return ln, nil
+		}
+		last = err
+		time.Sleep(time.Duration(50*(try+1)) * time.Millisecond)
+	}
+	return nil, last
+}
+
+// g7Retry runs f up to five times with a short back-off.
+func g7Retry(f func() error) error {
+	var last error
+	for try := 0; try < 5; try++ {
+		if last = f(); last == nil {
+			return nil
+		}
+		time.Sleep(time.Duration(50*(try+1)) * time.Millisecond)
+	}
+	return last
 }
